@@ -362,6 +362,50 @@ func concurrentScenarios() []*sched.Scenario {
 				vrt.Fail("concurrent-size", "3 keys, one added and one deleted concurrently with readers: Size is %d", a.Size())
 			}
 		}})
+		// Stream against a writer: what is streamed is the contents before or after each of the writer's operations,
+		// never a pair that did not exist (a key with somebody else's or nobody's value)
+		out = append(out, &sched.Scenario{Name: "concurrent/" + name + "/stream-vs-writer", Run: func() {
+			a := open(mapdb.NewMapDB(), set)
+			val := func(k string) string {
+				if set {
+					return ""
+				}
+				return "v" + k
+			}
+			for _, k := range keys[:3] {
+				if err := a.Set(k, val(k)); err != nil {
+					panic(err)
+				}
+			}
+			got := map[string]string{}
+			vrt.Par(func() {
+				if err := a.Stream(func(k, v string) error {
+					got[k] = v
+					vrt.Yield()
+					return nil
+				}); err != nil {
+					panic(err)
+				}
+			}, func() {
+				_, _ = a.Delete(keys[0])
+				_, _ = a.Delete(keys[2])
+			})
+			vrt.Observe("streamed", contentsKey(got))
+			for k, v := range got {
+				if v != val(k) {
+					vrt.Fail("concurrent-stream", "Stream reported key %s with value %q; its only value ever was %q", k, v, val(k))
+				}
+			}
+			if _, ok := got[keys[1]]; !ok {
+				vrt.Fail("concurrent-stream", "key %s is present throughout but Stream did not report it (%s)", keys[1], contentsKey(got))
+			}
+			// the writer deletes keys[0] before keys[2]: a snapshot cannot contain keys[0] without keys[2]
+			if _, has0 := got[keys[0]]; has0 {
+				if _, has2 := got[keys[2]]; !has2 {
+					vrt.Fail("concurrent-stream", "Stream reported %s, a set of keys that never existed together (the writer deletes %s before %s)", contentsKey(got), keys[0], keys[2])
+				}
+			}
+		}})
 	}
 	return out
 }
